@@ -155,10 +155,11 @@ FltBin(op, a, b, st, ln) ==
          IF E > MaxFltExp \/ Abs(a.n) > (LIM - 1) \div Pow2(E - a.e) \/ Abs(b.n) > (LIM - 1) \div Pow2(E - b.e) THEN Oom(st) ELSE
          LET x == a.n * Pow2(E - a.e)  y == b.n * Pow2(E - b.e) IN
          FltOk(IF op = "+" THEN x + y ELSE x - y, E, st)
-    [] op = "*" -> IF a.n = 0 \/ b.n = 0 THEN Ok(st, FltV(0, 0))
+    [] op = "*" -> IF a.n = 0 \/ b.n = 0 THEN (IF a.n < 0 \/ b.n < 0 THEN Oom(st) ELSE Ok(st, FltV(0, 0)))   \* 0 * negative = -0
                    ELSE IF Abs(a.n) <= (LIM - 1) \div Abs(b.n) /\ a.e + b.e <= 2 * MaxFltExp
                         THEN FltOk(a.n * b.n, a.e + b.e, st) ELSE Oom(st)
     [] op = "/" -> IF b.n = 0 THEN Fail(st, "divzero", "", ln)
+                   ELSE IF a.n = 0 /\ b.n < 0 THEN Oom(st)        \* -0
                    ELSE IF a.n % Abs(b.n) # 0 THEN Oom(st)        \* inexact quotient: outside the model
                    ELSE LET q == (a.n \div Abs(b.n)) * (IF b.n < 0 THEN -1 ELSE 1)   \* a.n / b.n exactly
                         IN \* (q / 2^a.e) * 2^b.e
@@ -268,7 +269,7 @@ Method(m, recv, argv, st, ln) ==
   CASE m = "len"  -> Ok(st, IntV(Len(o.es)))
     [] m = "push" -> Ok([st EXCEPT !.heap[recv.a].es = Append(@, argv[1])], NilV)
     [] m = "pop"  -> IF o.es = <<>> THEN Fail(st, "anyerr", "", ln)      \* C26: must be *a* runtime error
-                     ELSE Ok([st EXCEPT !.heap[recv.a].es = SubSeq(@, 1, Len(@) - 1)], NilV)
+                     ELSE Ok([st EXCEPT !.heap[recv.a].es = SubSeq(@, 1, Len(@) - 1)], o.es[Len(o.es)])
     [] m = "is_empty" -> Ok(st, BoolV(o.es = <<>>))
     [] m = "clear" -> Ok([st EXCEPT !.heap[recv.a].es = <<>>], NilV)
     [] m = "contains" -> Ok(st, BoolV(\E i \in 1..Len(o.es) : ValEq(o.es[i], argv[1], st.heap)))
@@ -282,7 +283,9 @@ EvalE(e, st, ln) ==
     [] e.k = "var"  -> IF Bound(st.env, e.n) THEN Ok(st, Lookup(st.env, e.n)) ELSE Ok(st, FnV(e.n))
     [] e.k = "neg"  -> LET r == EvalE(e.e, st, ln) IN
                        IF r.sig # "ok" THEN r
-                       ELSE IF r.v.t = "int" THEN Ok(r.st, IntV(-r.v.v)) ELSE Ok(r.st, FltV(-r.v.n, r.v.e))
+                       ELSE IF r.v.t = "int" THEN Ok(r.st, IntV(-r.v.v))
+                       ELSE IF r.v.n = 0 THEN Oom(r.st)            \* -0.0 is not a dyadic rational: see Flt.tla
+                       ELSE Ok(r.st, FltV(-r.v.n, r.v.e))
     [] e.k = "not"  -> LET r == EvalE(e.e, st, ln) IN IF r.sig # "ok" THEN r ELSE Ok(r.st, BoolV(~r.v.v))
     [] e.k = "bin"  ->
          LET l == EvalE(e.l, st, ln) IN
@@ -330,7 +333,7 @@ EvalE(e, st, ln) ==
                         ELSE LET r == EvalArgs(e.es, f.st, ln, <<>>) IN
                              IF r.sig # "ok" THEN r ELSE CallVal(f.v, r.v.es, r.st, ln)
     [] e.k = "lam"  -> Ok(st, [t |-> "clo", ps |-> e.ps, body |-> e.body, env |-> st.env,
-                               fname |-> "<anonymous fn>", file |-> st.cur.file, ln |-> ln])
+                               fname |-> "<lambda>", file |-> st.cur.file, ln |-> ln])
     [] e.k = "mcall" -> LET o == EvalE(e.o, st, ln) IN
                         IF o.sig # "ok" THEN o
                         ELSE LET r == EvalArgs(e.es, o.st, ln, <<>>) IN
@@ -342,11 +345,14 @@ EvalE(e, st, ln) ==
          IF r.sig # "ok" THEN r
          ELSE IF r.v.c \in {"some", "ok"} THEN Ok(r.st, r.v.es[1])
          ELSE [st |-> r.st, v |-> r.v, sig |-> "ret"]
-    [] e.k = "unwrap" -> \* e!  : payload or panic
+    [] e.k = "unwrap" -> \* e!  : sugar for the prelude's Unwrap.unwrap, which panics inside the prelude
          LET r == EvalE(e.e, st, ln) IN
          IF r.sig # "ok" THEN r
          ELSE IF r.v.c \in {"some", "ok"} THEN Ok(r.st, r.v.es[1])
-         ELSE Fail(r.st, "panic", "", ln)
+         ELSE LET st2 == [r.st EXCEPT !.calls = Append(@, [file |-> r.st.cur.file, line |-> ln, fn |-> r.st.cur.fn]),
+                                      !.cur = [fn |-> "unwrap", file |-> "prelude.abra"]]
+                  f == Fail(st2, "panic", IF r.v.c = "none" THEN "cannot unwrap option.none" ELSE "cannot unwrap result.err", 0)
+              IN [f EXCEPT !.st.calls = r.st.calls, !.st.cur = r.st.cur]       \* line 0 = unspecified (prelude-internal)
     [] e.k = "panic" -> LET r == EvalE(e.e, st, ln) IN
                         IF r.sig # "ok" THEN r ELSE Fail(r.st, "panic", r.v.v, ln)
     [] OTHER -> Assert(FALSE, <<"EvalE: unknown expression", e>>)
